@@ -28,7 +28,7 @@ class Joins(Component):
         return gen.set_join_case(tier, p_empty=5)
 
     def check(self, case, ctx):
-        L, R = canon.build_table(case["L"]), canon.build_table(case["R"])
+        L, R = canon.build_pair(case)
         m = case["measure"]
         df = calls.run_join(ctx, case, L, R, mk_tok(case["tok"]))
         if df is None:
@@ -78,7 +78,7 @@ class Filters(Component):
         return c04.set_filter_case(tier, p_empty=5)
 
     def check(self, case, ctx):
-        L, R = canon.build_table(case["L"]), canon.build_table(case["R"])
+        L, R = canon.build_pair(case)
         ft, m = case["ftype"], case["measure"]
         f = calls.make_filter(ctx, c04.fcfg_of(case), mk_tok(case["tok"]))
         if f is None:
